@@ -189,12 +189,13 @@ def choose_one(rng, H, sh, profile):
                 w((3, lambda oid=oid: insub({'op': 'SUB', 'oid': oid})))
             else:
                 if not i['we_cancel'] and not i['peer_term']:
-                    w((2, lambda oid=oid: {'op': 'SRQ', 'oid': oid, 'n': rng.choice([1, 2, 5])}))
+                    # (now and then a computed top-up comes out as 0: a local action like any other)
+                    w((2, lambda oid=oid: {'op': 'SRQ', 'oid': oid, 'n': rng.choice([1, 2, 5] * 8 + [0])}))
                     w((1, lambda oid=oid: {'op': 'SCN', 'oid': oid}))
                 elif hostile:
                     w((1, lambda oid=oid: {'op': 'SCN', 'oid': oid}))
         if k == 'chResp' and i['has_sub'] and not i['we_cancel'] and not i['peer_term']:
-            w((2, lambda oid=oid: {'op': 'SRQ', 'oid': oid, 'n': rng.choice([1, 2, 5])}))
+            w((2, lambda oid=oid: {'op': 'SRQ', 'oid': oid, 'n': rng.choice([1, 2, 5] * 8 + [0])}))
             w((1, lambda oid=oid: {'op': 'SCN', 'oid': oid}))
         if k == 'rrReq':
             w((2 if not i['peer_term'] and not i['we_cancel'] else 0.3, lambda oid=oid: {'op': 'FCN', 'oid': oid}))
